@@ -39,9 +39,12 @@ package state
 //@ pure
 //@ ensures result == so.data.Balance
 
+// "Empty" account (EIP-158 pruning predicate): among other things it holds no balance. Finalise relies on it to drop accounts.
+//@ effectfree bytes.Equal
 //@ func (*stateObject).empty props C07
-//@ nobody
 //@ pure
+//@ opt noalloc
+//@ ensures [empty-holds-no-balance] result ==> big(so.data.Balance) == 0
 
 //@ func (*stateObject).touch props C07
 //@ nobody
@@ -339,3 +342,75 @@ package state
 //@ nobody
 //@ modifies nothing
 
+// ---------------------------------------------------------------------------------------------------------------
+// Nonces are not part of the ledger: raising one moves no value.
+// ---------------------------------------------------------------------------------------------------------------
+
+//@ func (*stateObject).SetNonce props C07
+//@ modifies so.data.Nonce
+//@ ensures [set] so.data.Nonce == nonce
+
+//@ func (*StateDB).GetNonce props C07
+//@ nobody
+//@ pure
+
+//@ func (*StateDB).SetNonce props C07
+//@ modifies all(stateObject.data)
+//@ ensures [ledger-untouched] c07Ledger == old(c07Ledger)
+
+// ---------------------------------------------------------------------------------------------------------------
+// Pruning at the block boundary: "value only moves" — a validator record may leave the state only when it holds nothing.
+// IntermediateRoot(true) (every block: consensus Finalize, block validation, commit) deletes the dirty records that are marked
+// deleted or that IsInvalid() calls empty; deleteValidator pays nothing out, so whatever the record still held (Token: self tokens and
+// delegations; RewardsDistributable: unsettled rewards / division residue) would vanish from the ledger.
+// ---------------------------------------------------------------------------------------------------------------
+
+// Range of an exact uint64 read: (*big.Int).Uint64 is specified only for 0 <= x < 2^64 ("undefined" otherwise, math/big). The amounts are
+// in LU (2^64 LU = 18.44 YOU), so this is NOT a data invariant of Token; see props/C07.json (not_decided) for what stays outside.
+//@ spec func c07U64(x: *big.Int) bool = 0 <= big(x) && big(x) < 2^64
+
+// "Empty" means: no tokens and no stake.
+//@ func (*Validator).IsInvalid props C07
+//@ pure
+//@ opt noalloc
+//@ ensures [invalid-holds-no-tokens] result && c07U64(v.Token) ==> big(v.Token) == 0
+//@ ensures [invalid-has-no-stake] result && c07U64(v.Stake) ==> big(v.Stake) == 0
+//@ ensures [empty-is-invalid] big(v.Token) == 0 && big(v.Stake) == 0 ==> result
+
+// Marking a record deleted takes what it holds out of the ledger at that moment: a caller must have paid it out (there is no caller in
+// the repository outside tests; ASSUMED definition like the other primitives).
+//@ func (*StateDB).RemoveValidator props C07
+//@ nobody
+//@ modifies all, c07Ledger, c07Tok, c07RD
+//@ ensures !result ==> c07Ledger == old(c07Ledger) && c07Tok == old(c07Tok) && c07RD == old(c07RD)
+//@ ensures result ==> c07Ledger == old(c07Ledger) - old(c07Tok[mainAddress]) - old(c07RD[mainAddress]) &&
+//@     c07Tok == store(old(c07Tok), mainAddress, 0) && c07RD == store(old(c07RD), mainAddress, 0)
+
+// THE pruning primitive: it writes the deletion to the trie / index / statistics and pays nothing. Its precondition is the ledger-side
+// guard, an obligation at every call site: the record was already taken out of the ledger by RemoveValidator (marked deleted), or it
+// holds no tokens (for amounts a uint64 read is exact for, see c07U64).
+//@ func (*StateDB).deleteValidator props C07
+//@ requires [deleted-validator-holds-no-tokens] val.deleted || big(val.Token) == 0 || !c07U64(val.Token)
+//@ // KNOWN FINDING (listed in /verif/known_findings.json): the real code violates the rewards half of the guard: IsInvalid() looks at Token and Stake only, so a record emptied by a
+//@ // full withdrawal is pruned at the same block boundary together with the division residue the preceding settlement left in its
+//@ // RewardsDistributable (online validator: residue stays in the record). Demonstrated: /verif/proposed_fixes/C07/prune_loses_reward_residue_probe_test.go.txt
+//@ // (777 LU vanish); proposal: /verif/findings_proposed/C07.json + /verif/proposed_fixes/C07/prune_loses_reward_residue.{md,diff}.
+//@ requires [deleted-validator-holds-no-rewards] val.deleted || big(val.RewardsDistributable) == 0
+//@ modifies all
+
+// The block-boundary flush (its write-set completeness is C10's clause 3). Under C07: the two requires of deleteValidator at the pruning call.
+//@ func (*StateDB).IntermediateRoot props C07
+//@ modifies all
+
+// Account side of the same guard: Finalise (after every transaction and at the block boundary) marks an account deleted — IntermediateRoot
+// then removes it from the trie without paying anything — only if it holds no balance, or if it self-destructed (EVM semantics: SELFDESTRUCT
+// has moved the balance to the beneficiary, what a dead account receives afterwards is burnt by design; EVM execution is C16's subject).
+//@ func (*StateDB).Finalise props C07
+//@ modifies all
+//@ assert before store deleted: [deleted-account-holds-nothing] stateObject.suicided || big(stateObject.data.Balance) == 0
+
+// Last-active round (YouV5 extension): a lazily decoded cache cell inside the record; no amount is touched.
+// hexutil.CompactBytesToUint64 decodes a byte slice into a number: no effect on modelled state.
+//@ effectfree github.com/youchainhq/go-youchain/common/hexutil.CompactBytesToUint64
+//@ func (*Validator).LastActive props C07
+//@ modifies v.Ext.extV1.LastActive
